@@ -12,6 +12,8 @@ impl->spec: the observed target type tree of every position is an event judged b
 from .. import common, observe, typecases
 from ..common import ToolError
 
+from .. import compose
+
 NEEDS = ["driver"]
 
 
@@ -264,9 +266,12 @@ def run(chk):
     chk.extra["trace_events"] = len(idx)
     generic_orders(chk)
     user_names(chk)
+    compose.run(chk, "types")
 
 
 def replay(chk, rec):
+    if "compose" in rec.get("case", {}):
+        return compose.replay(chk, rec, "types")
     if "src" in rec["case"]:
         generic_orders(chk)
         user_names(chk)
